@@ -2,6 +2,7 @@ package props
 
 import (
 	"fmt"
+	"os"
 	"time"
 
 	"github.com/pion/rtcp"
@@ -30,6 +31,9 @@ func (c10) Gen(seed int64, tier string, avoid []string) *Plan {
 	nk := pick(r, 1, 1, 2, 3, 4)
 	for i := 0; i < nk; i++ {
 		k := rigKinds[r.Intn(len(rigKinds))]
+		if f := os.Getenv("C10_FOCUS"); f != "" && i == 0 {
+			k = f // (exploration aid, not used by the registered commands)
+		}
 		if avoidSet["c10-"+k] {
 			k = "report_recv"
 		}
@@ -44,7 +48,7 @@ func (c10) Gen(seed int64, tier string, avoid []string) *Plan {
 		}
 	}
 	p.PoolDrop = pick(r, 0, 0, 300)
-	topt := rigTrafficOpts{nackBias: chance(r, 500), lifecycle: chance(r, 500), observers: true}
+	topt := rigTrafficOpts{nackBias: chance(r, 500), lifecycle: chance(r, 500), observers: true, coincide: pick(r, 0, 300, 700)}
 	for _, k := range cfg.Kinds {
 		if k == "rtpfb" || k == "cc_noop" || k == "cc_leaky" {
 			topt.fbBias = chance(r, 700)
@@ -89,7 +93,10 @@ func (c10) Run(e *Env) {
 	if cfg.RTCPReaders > 1 {
 		e.Probe("concurrent_rtcp_readers")
 	}
-	e.AtEnd(func() { c10Conservation(e, rg, lifecycle) })
+	e.AtEnd(func() {
+		e.Check() // the run's verdict itself: no race report, no stranded caller, no panic
+		c10Conservation(e, rg, lifecycle)
+	})
 }
 
 // c10Conservation: counters and sequence allocations lose no updates.
@@ -131,8 +138,33 @@ func c10Conservation(e *Env, rg *Rig, lifecycle bool) {
 				twccCount++
 			}
 		}
+		if os.Getenv("C10_DEBUG") != "" {
+			dbg, _ := os.Create(os.Getenv("C10_DEBUG"))
+			defer dbg.Close()
+			for _, o := range rg.Out {
+				var ext rtp.TransportCCExtension
+				b := o.hdr.GetExtension(uint8(cfg.Local[o.stream].TWCC))
+				ext.Unmarshal(b)
+				fmt.Fprintf(dbg, "OUT stream=%d lib=%v ssrc=%d pt=%d seq=%d num=%d haveext=%v err=%v at=%v\n", o.stream, o.byLib, o.hdr.SSRC, o.hdr.PayloadType, o.hdr.SequenceNumber, ext.TransportSequence, b != nil, o.errRet, o.at)
+			}
+		}
+		// FEC packets injected above the numbering member take numbers too; the congestion controller's pacer
+		// refuses them (their SSRC was never added to it), so they never reach the wire: gaps are then expected,
+		// duplicates are not
+		fecRefused := has("flexfec") && (has("cc_noop") || has("cc_leaky"))
 		if !buffered && !lifecycle && twccCount == 1 {
-			c15Consecutive(e, nums)
+			if fecRefused {
+				seen := map[uint16]bool{}
+				for _, v := range nums {
+					if seen[v] && len(nums) < 65536 {
+						e.Violatef("oracle", "c15:not-consecutive", "transport sequence number %d assigned twice among %d packets", v, len(nums))
+						break
+					}
+					seen[v] = true
+				}
+			} else {
+				c15Consecutive(e, nums)
+			}
 		}
 	}
 	if lifecycle {
